@@ -3,6 +3,7 @@ package rules
 import (
 	"fmt"
 	"go/token"
+	"go/types"
 	"regexp"
 	"strconv"
 	"strings"
@@ -460,6 +461,17 @@ func builderRow(fn *ssa.Function) []ssa.Value {
 		if !ok {
 			return
 		}
+		// (not the argument list of a formatting call: `fmt.Errorf("… %q: %w", tag[1], err)` is a []any too)
+		if sl.Referrers() != nil {
+			for _, r := range *sl.Referrers() {
+				if ci, isCI := r.(ssa.CallInstruction); isCI {
+					n := an.CalleeName(ci.Common())
+					if strings.HasPrefix(n, "fmt.") || strings.HasPrefix(n, "log.") || strings.HasPrefix(n, "errors.") || strings.Contains(n, "log/slog") {
+						return
+					}
+				}
+			}
+		}
 		if elems, ok := an.VariadicElems(sl); ok && len(elems) >= 2 {
 			// row literals hold interface values
 			if _, isIface := elems[0].Type().Underlying().(interface{ NumMethods() int }); isIface && len(elems) > len(best) {
@@ -531,7 +543,8 @@ func runSQLHash(c *core.Ctx) {
 	keyShape, keyAddr := "", ""
 	for _, rb := range an.ReturnBlocks(key) {
 		rv := an.ReturnValues(an.LastInstr(rb).(*ssa.Return))
-		if len(rv) != 2 || !isConstBool(rv[1], true) {
+		// (a key that exists: `true`, or a nil error)
+		if len(rv) != 2 || !(isConstBool(rv[1], true) || (types.Identical(rv[1].Type(), types.Universe.Lookup("error").Type()) && an.IsNilConst(rv[1]))) {
 			continue
 		}
 		shape, _, vals := hashKeyDescr(key, rv[0], rb)
@@ -1055,6 +1068,11 @@ func runSQLCond(c *core.Ctx) {
 			}
 			// the operand is built from this field's elements (a slice filled in a loop over them, or the field itself)
 			fromField := x.arg == filt+"."+row.field
+			// (… or a list grown by appending, one element of the field at a time: `bins = append(bins, decode(v))`
+			// in a loop over the field — elements that cannot be decoded, hence cannot equal a stored value, may be left out)
+			if !fromField && strings.Contains(x.arg, "append(") && strings.Contains(x.arg, filt+"."+row.field+"[*]") && (row.via == "" || strings.Contains(x.arg, row.via)) {
+				fromField = true
+			}
 			if !fromField {
 				an.Region(build, nil, func(o an.Occ) {
 					st, ok := o.In.(*ssa.Store)
